@@ -15,11 +15,13 @@ package searcher
 // ---- FilteringSearcher: the child's stream restricted to accepted matches ----
 // representation invariant: until it is exhausted, the child's cursor is this searcher's cursor
 //@ spec filterInv(f *FilteringSearcher) bool = f.child != nil && f.child != f && f.accept != nil && implies(f.started && !f.done, f.child.started && !f.child.done && f.child.last == f.last) && implies(!f.started && !f.done, !f.child.started && !f.child.done) && implies(f.done, f.child.done)
+// inside Advance the child may be ahead (its match was rejected) when Next is called
+//@ spec filterInvWeak(f *FilteringSearcher) bool = f.child != nil && f.child != f && f.accept != nil && implies(f.started, f.child.started && f.child.last >= f.last) && implies(!f.started && !f.done && f.child.started, true) && implies(f.done, f.child.done)
 
 //@ func FilteringSearcher.Next
 //@   props C08
 //@   mode int
-//@   requires f != nil && filterInv(f) && ctx != nil && ctx.DocumentMatchPool != nil
+//@   requires f != nil && filterInvWeak(f) && ctx != nil && ctx.DocumentMatchPool != nil
 //@   modifies f.started, f.last, f.done, f.child.started, f.child.last, f.child.done, fields(search.DocumentMatch), search.DocumentMatchPool.avail, mem(*search.DocumentMatch)
 //@   at return: ghost f.started = f.started || (result1 == nil && result0 != nil)
 //@   at return: ghost f.last = ite(result1 == nil && result0 != nil, idKey(result0.IndexInternalID), f.last)
